@@ -79,6 +79,7 @@ class SimTor:
         self.setevents = []
         self.next_service = 0
         self.numeric_default = {}
+        self.info = {}              # GETINFO key -> list of data lines
         self.service_ids = []
         self._outbox = []
         self._pumping = False
@@ -131,6 +132,9 @@ class SimTor:
     def event(self, text):
         self.send('650 %s\r\n' % text)
 
+    def event_block(self, name, lines):
+        self.send('650+%s\r\n' % name + ''.join(('.' + l if l.startswith('.') else l) + '\r\n' for l in lines) + '.\r\n650 OK\r\n')
+
     def release(self, word=None, reply=None):
         """answer the oldest held command (optionally only of that word) — with `reply` if given"""
         for i, line in enumerate(self.held):
@@ -174,8 +178,11 @@ class SimTor:
             return '250-%s=\r\n250 OK\r\n' % key
         if key == 'process/pid':
             return '250-process/pid=4242\r\n250 OK\r\n'
-        if key in ('circuit-status', 'stream-status', 'address-mappings/all', 'ns/all', 'entry-guards'):
-            return '250-%s=\r\n250 OK\r\n' % key
+        if key in self.info or key in ('circuit-status', 'stream-status', 'address-mappings/all', 'ns/all', 'entry-guards'):
+            lines = self.info.get(key, [])
+            if not lines:
+                return '250-%s=\r\n250 OK\r\n' % key
+            return '250+%s=\r\n' % key + ''.join(('.' + l if l.startswith('.') else l) + '\r\n' for l in lines) + '.\r\n250 OK\r\n'
         if key.startswith('status/bootstrap-phase'):
             return '250-status/bootstrap-phase=NOTICE BOOTSTRAP PROGRESS=100 TAG=done SUMMARY="Done"\r\n250 OK\r\n'
         return '552 Unrecognized key "%s"\r\n' % key
